@@ -24,6 +24,7 @@ func init() {
 		Run: runC23,
 		Controls: []Control{
 			{Name: "keepalive-timer-survives-into-a-hold-time-zero-session", File: "protocols/bgp/server/fsm_open_sent.go", Old: "\t} else {\n\t\t// no keepalives and no hold timer in this session: don't keep the timer of an earlier one\n\t\tstopTimer(s.fsm.keepaliveTimer)\n\t\ts.fsm.keepaliveTimer = nil\n\t}\n", New: "\t}\n", Expect: "hold-timer-runs-only-with-nonzero-hold-time"},
+			{Name: "open-sent-re-entered-by-its-hold-timer-check", File: "protocols/bgp/server/fsm_open_sent.go", Old: "\t\t\tif _, same := next.(*openSentState); same {\n", New: "\t\t\tif _, same := next.(*openSentState); same && reason == \"\" {\n", Expect: "one-receiver-per-connection"},
 			{Name: "hold-timer-guard-before-negotiation", File: "protocols/bgp/server/fsm_open_sent.go", Old: "\ts.fsm.neighborID = openMsg.BGPIdentifier\n", New: "\ts.fsm.neighborID = openMsg.BGPIdentifier\n\tif s.fsm.holdTime != 0 {\n\t\ts.fsm.updateLastUpdateOrKeepalive()\n\t}\n", Expect: "negotiated-hold-time-read-after-it-is-stored"},
 			{Name: "openconfirm-hold-timer-ignores-hold-time-zero", File: "protocols/bgp/server/fsm_open_confirm.go", Old: "\tif s.fsm.holdTime != 0 && time.Since(s.fsm.lastUpdateOrKeepalive) > s.fsm.holdTime {", New: "\tif time.Since(s.fsm.lastUpdateOrKeepalive) > s.fsm.holdTime {", Expect: "hold-timer-runs-only-with-nonzero-hold-time"},
 			{Name: "teardown-stops-at-first-unconfigured-family", File: "protocols/bgp/server/fsm_established.go", Old: "\tif s.fsm.ipv4Unicast != nil {\n\t\ts.fsm.ipv4Unicast.dispose()\n\t}\n\n\tif s.fsm.ipv6Unicast != nil {\n\t\ts.fsm.ipv6Unicast.dispose()\n\t}\n", New: "\tfor _, f := range []*fsmAddressFamily{s.fsm.ipv4Unicast, s.fsm.ipv6Unicast} {\n\t\tif f == nil {\n\t\t\tbreak\n\t\t}\n\t\tf.dispose()\n\t}\n", Expect: "every-family-follows-the-session"},
@@ -49,6 +50,7 @@ var rfcRelation = map[string][]string{
 }
 
 func runC23(c *core.Ctx) {
+	oneReceiverPerConnection(c, "one-receiver-per-connection")
 	negotiatedHoldTimeReadAfterItIsStored(c, "negotiated-hold-time-read-after-it-is-stored")
 	holdTimerNeedsNonZeroHoldTime(c)
 	everyFamilyHandled(c, "every-family-follows-the-session", c.MustFunc(srv+".(*establishedState).init"), c.MustFunc(srv+".(*fsmAddressFamily).init"))
